@@ -4,39 +4,39 @@ import json, os
 ROOT = os.path.dirname(os.path.dirname(os.path.abspath(__file__)))
 BASE = "cd /repo && cargo nextest run --workspace --no-fail-fast --test-threads 8 --offline || cargo test --workspace --no-fail-fast --offline"
 T = {
- "C01": ("bounded-exhaustive enumeration of operand pairs x every operator overload against exact integer arithmetic",
+ "C01": ("bounded-exhaustive enumeration of operand pairs x every operator overload (and of two-operation histories over related scale gaps) against exact integer arithmetic",
          "all pairs over a small-scope operand set plus a scale-gap alphabet built from the code's decision constants, through every + - * overload (decimal, ref, BigInt, 10 primitive types, compound forms), compared with the exact integer result"),
  "C02": ("bounded-exhaustive enumeration of decimal pairs (small scope + limb-boundary alphabet) against the real-number order",
          "all ordered pairs of a small-scope set x 12 comparison predicates, plus the limb-boundary / scale-extreme alphabets that drive the word-wise comparison through every carry outcome"),
  "C03": ("bounded-exhaustive enumeration of value-equal representation families through a recording Hasher",
          "every family of value-equal representations in the stated bounds must feed byte-identical streams to a recording hasher and collapse in a HashSet"),
- "C04": ("bounded-exhaustive enumeration of decimals x renderings, re-parsed by the real parser and the model automaton",
+ "C04": ("bounded-exhaustive enumeration of decimals x renderings, re-parsed by the real parser and the model automaton; every fault point of a failing output sink enumerated (deviation bound 1), then fault-free histories; domain re-explored in a non-default build configuration",
          "every decimal in the digit-length x scale x pattern product through every rendering, parsed back and compared (value, and digits+scale where promised)"),
  "C05": ("exhaustive enumeration of all strings up to a length bound over a fixed alphabet against a deterministic automaton + denotation",
          "every string up to the length bound over the alphabet through all four parser entry points, compared with the model DFA's accept/reject verdict and denotation"),
- "C06": ("bounded-exhaustive enumeration of (decimal, target scale, mode) against integer rounding",
+ "C06": ("bounded-exhaustive enumeration of (decimal, target scale, mode) against integer rounding, in the default and in a non-default build configuration",
          "all decimals with |unscaled| below the bound at scales -3..8 x all targets within 4 of either end x 7 modes, all 4200 digit-pair arguments"),
  "C07": ("bounded-exhaustive enumeration of (decimal, precision, mode, entry point) against integer rounding at the p-th digit",
          "all small-scope decimals x p in 1..digits+5 x 7 modes through every precision-rounding entry point incl. two-operand context sums"),
- "C08": ("bounded-exhaustive enumeration of (dividend, divisor, overload) against rational cross-multiplication; full zero-divisor overload matrix",
+ "C08": ("bounded-exhaustive enumeration of (dividend, divisor, overload) against rational cross-multiplication; full zero-divisor overload matrix; default and non-default build configuration",
          "all small-scope quotient pairs x sign/scale/ownership forms, boundary sets around the 100-digit precision, every primitive overload, and every division overload with a zero divisor"),
  "C09": ("bounded-exhaustive enumeration of operand pairs x 5 forms against the truncated-division identity",
          "all ordered pairs over a small-scope set and a scale-gap alphabet in both directions, five ownership forms"),
- "C10": ("bounded-exhaustive enumeration of (radicand, precision, mode) against a certified integer square root",
+ "C10": ("bounded-exhaustive enumeration of (radicand, precision, mode) against a certified integer square root, incl. model-located delicate roundings; default and non-default build configuration",
          "all small radicands x scales x p x 7 modes plus perfect-square/tie/long-input alphabets; the oracle certifies floor-root, exactness and midpoint position with exact integers"),
- "C11": ("bounded-exhaustive enumeration of (radicand, precision, mode, sign) against a certified integer cube root",
+ "C11": ("bounded-exhaustive enumeration of (radicand, precision, mode, sign) against a certified integer cube root, incl. model-located delicate roundings; default and non-default build configuration",
          "as C10 for cube roots, both signs, all scale residues mod 3"),
- "C12": ("bounded-exhaustive enumeration of (x, precision, mode) against exact cross-multiplication, sign symmetry and a termination watchdog",
+ "C12": ("bounded-exhaustive enumeration of (x, precision, mode) against exact cross-multiplication, sign symmetry and a termination watchdog, in the std and the no_std build of the subject",
          "all small x, 2^i5^j, bit-length alphabet and long operands x p x 7 modes"),
  "C13": ("exhaustive enumeration of an argument grid against an outward-rounded interval enclosure of e^x",
          "every argument of the stated grid; result compared with a rigorous enclosure"),
- "C14": ("exhaustive enumeration of float bit patterns (all 2^32 f32 in the thorough tier) against the exact binary value",
+ "C14": ("exhaustive enumeration of float bit patterns (all 2^32 f32 in the thorough tier) against the exact binary value, in the std and the no_std build of the subject",
          "every exponent field x mantissa alphabet (quick) / every f32 (thorough); decimals x exponents for to_f64"),
  "C15": ("bounded-exhaustive enumeration of boundary decimals x conversions against integer truncation",
          "every type limit +- small offsets in every exact representation, small-scope grid, constructors"),
- "C16": ("bounded-exhaustive enumeration of (decimal, precision, format spec) re-read by the model's numeral recogniser",
+ "C16": ("bounded-exhaustive enumeration of (decimal, precision, format spec) re-read by the model's numeral recogniser; every fault point of a failing output sink enumerated (deviation bound 1); default and non-default build configuration",
          "all small-scope decimals x N x format kinds, padding-limit alphabet, and every flag combination"),
- "C17": ("bounded-exhaustive enumeration of decimals / JSON documents / token streams through serde against the model denotation",
+ "C17": ("bounded-exhaustive enumeration of decimals / JSON documents / token streams (incl. in-place refills over previous occupants) through serde against the model denotation, in the default and the string-only build of the subject",
          "round trips for every decimal of the product, every short JSON document over the numeric alphabet, every integer/float token width"),
  "C18": ("exhaustive enumeration of 10^k, 10^k+-1 for k<=5000 and a small-scope product x every accessor",
          "stored pair returned verbatim, digit counts equal string lengths, normalized form canonical"),
@@ -61,7 +61,7 @@ for pid in sorted(T):
             "level_claimed": {"category": "model_checking",
                               "text": "Bounded-exhaustive exploration of the real implementation: " + text + ". A green run is a coverage statement for exactly the enumerated finite domain (bounds in the evidence file); nothing is sampled and no solver is involved.",
                               "design_ref": SECTION[pid]},
-            "level_note": "Trusted: num-bigint basic arithmetic and decimal printing (shared with the subject), std, the ~900-line reference model in mc/spec (guarded by per-call certificates and a conformance suite of the maintainers' documented literals). One build profile (opt-level 2, overflow checks + debug assertions on for the subject). Nothing is claimed outside the stated bounds.",
+            "level_note": "Trusted: num-bigint basic arithmetic and decimal printing (shared with the subject), std, the ~900-line reference model in mc/spec (guarded by per-call certificates and a conformance suite of the maintainers' documented literals). One build profile (opt-level 2, overflow checks + debug assertions on for the subject); other feature sets / build configurations only where the technique field says so (child explorations, mc/variants). Nothing is claimed outside the stated bounds.",
             "technique": tech,
         })
     else:
@@ -72,7 +72,7 @@ m = {
  "hooks": {"guard": "none", "enable": "not needed: every mechanism is reachable through the public API and every state is constructible with BigDecimal::new; checks build /repo's working tree as a path dependency",
            "baseline_off_cmd": BASE, "source_commits": [], "add_only": True},
  "engines": [{"name": "mc", "path": "mc/", "serves_properties": [c["property_id"] for c in checks],
-              "kind_free_text": "Rust harness: sharded bounded-exhaustive enumeration of public-API executions of the real crate (path dependency on /repo) against an independent exact-integer reference model; explicit-state BFS over accumulator states for operation sequences (C19); per-configuration rebuilds (C20)"}],
+              "kind_free_text": "Rust harness: sharded bounded-exhaustive enumeration of public-API executions of the real crate (path dependency on /repo) against an independent exact-integer reference model; explicit-state BFS over accumulator states for operation sequences (C19); per-configuration rebuilds (C20); the same drivers re-run as child explorations against other builds of the subject (mc/variants: no_std, string-only, a non-default configuration); fault-injecting output sinks (C04, C16)"}],
  "checks": checks,
  "not_applicable": na,
  "notes": "See DESIGN.md. known_findings.json lists genuine defects recorded or fixed; replays/ holds one JSON file per reported violation.",
